@@ -50,6 +50,7 @@ import (
 	"math"
 	"regexp"
 	"sort"
+	"strings"
 	"sync"
 
 	"github.com/google/licenseclassifier/stringclassifier/internal/pq"
@@ -112,8 +113,26 @@ func New(threshold float64, funcs ...NormalizeFunc) *Classifier {
 type knownValue struct {
 	key             string
 	normalizedValue string
-	reValue         *regexp.Regexp
 	set             *searchset.SearchSet
+}
+
+// findAll returns the [start, end) byte ranges of the successive,
+// non-overlapping occurrences of the known value in s. The value is searched
+// for literally: it is arbitrary text, not a regular expression.
+func (k *knownValue) findAll(s string) [][]int {
+	if k.normalizedValue == "" {
+		return nil
+	}
+	var all [][]int
+	for from := 0; ; {
+		i := strings.Index(s[from:], k.normalizedValue)
+		if i < 0 {
+			break
+		}
+		all = append(all, []int{from + i, from + i + len(k.normalizedValue)})
+		from += i + len(k.normalizedValue)
+	}
+	return all
 }
 
 // AddValue adds a known value to be matched against. If a value already exists
@@ -128,7 +147,6 @@ func (c *Classifier) AddValue(key, value string) error {
 	c.values[key] = &knownValue{
 		key:             key,
 		normalizedValue: norm,
-		reValue:         regexp.MustCompile(norm),
 	}
 	return nil
 }
@@ -146,7 +164,6 @@ func (c *Classifier) AddPrecomputedValue(key, value string, set *searchset.Searc
 	c.values[key] = &knownValue{
 		key:             key,
 		normalizedValue: value,
-		reValue:         regexp.MustCompile(value),
 		set:             set,
 	}
 	return nil
@@ -360,7 +377,7 @@ func newMatcher(unknown string, threshold float64) *matcher {
 // are the best matches.
 func (m *matcher) findMatches(known *knownValue) {
 	var mrs []searchset.MatchRanges
-	if all := known.reValue.FindAllStringIndex(m.normUnknown, -1); all != nil {
+	if all := known.findAll(m.normUnknown); all != nil {
 		// We found exact matches. Just use those!
 		for _, a := range all {
 			var start, end int
